@@ -33,7 +33,9 @@ Definition flat (l : list (nat * nat)) : list nat := flat_map (fun p => [fst p; 
 Record lru := { cap : nat; items : list (nat * nat) }.
 (* CFail k: an access whose inner step raises (injected fault in the backing cache): the exception is the
    call's result [8], the cache is unchanged *)
-Inductive ccall := CGet (k : nat) | CSet (k v : nat) | CContains (k : nat) | CDel (k : nat) | CLen | CClear | CFail (k : nat).
+(* CSetNM k v: __setitem__ of a cache built with mark_on_update=False (an update keeps the key's position) *)
+Inductive ccall := CGet (k : nat) | CSet (k v : nat) | CContains (k : nat) | CDel (k : nat) | CLen | CClear | CFail (k : nat)
+                 | CSetNM (k v : nat).
 
 Definition lru_get (c : lru) (k : nat) : lru * R :=
   match alookup k (items c) with
@@ -42,6 +44,12 @@ Definition lru_get (c : lru) (k : nat) : lru * R :=
   end.
 Definition lru_set (c : lru) (k v : nat) : lru :=
   let it := aremove k (items c) ++ [(k, v)] in                                         (* mark_on_update *)
+  {| cap := cap c; items := if Nat.ltb (cap c) (length it) then tl it else it |}.
+Definition lru_set_nomark (c : lru) (k v : nat) : lru :=
+  let it := match alookup k (items c) with
+            | Some _ => map (fun p => if Nat.eqb (fst p) k then (k, v) else p) (items c)
+            | None => items c ++ [(k, v)]
+            end in
   {| cap := cap c; items := if Nat.ltb (cap c) (length it) then tl it else it |}.
 Definition lru_exec (call : ccall) (c : lru) : lru * R :=
   match call with
@@ -55,6 +63,7 @@ Definition lru_exec (call : ccall) (c : lru) : lru * R :=
   | CLen => (c, [3; length (items c)])
   | CClear => ({| cap := cap c; items := [] |}, [5])
   | CFail _ => (c, [8])
+  | CSetNM k v => (lru_set_nomark c k v, [5])
   end.
 (* locked = true: SynchronizedCache; false: the bare LRUCache shared between threads (two accesses:
    the OrderedDict update and the move_to_end / eviction are separate steps) *)
@@ -88,7 +97,11 @@ Definition cache_prog (locked : bool) (call : ccall) : list (mstep lru unit (cca
    stat version of the file after w edits = w (every edit changes the stat version).
    TGetAt / TFindAt wexp: the same calls issued by the final "post" thread, which must see the last
    file state wexp: observing any other state yields a result no real call produces *)
-Inductive tcall := TGet (sys : nat) | TFind (v : nat) | TGetAt (wexp sys : nat) | TFindAt (wexp v : nat).
+(* TGetF / TFindF: the same calls whose os.stat fails with a transient error other than ENOENT/EACCES (the file
+   is being replaced): version_for_file_path folds the error into a version string -- the same for every such
+   failure -- that differs from the version of every file state, so the file is re-read *)
+Inductive tcall := TGet (sys : nat) | TFind (v : nat) | TGetAt (wexp sys : nat) | TFindAt (wexp v : nat)
+                 | TGetF (sys : nat) | TFindF (v : nat).
 Record tobj := { fver : option nat; parsed : list (nat * nat) }.
 Record tls := { tc : tcall; statv : option nat; tres : R }.
 
@@ -99,8 +112,8 @@ Definition find_sys (v : nat) (l : list (nat * nat)) : R :=
   end.
 Definition text_answer (c : tcall) (l : list (nat * nat)) : R :=
   match c with
-  | TGet sys | TGetAt _ sys => match alookup sys l with Some v => [1; v] | None => [0] end
-  | TFind v | TFindAt _ v => find_sys v l
+  | TGet sys | TGetAt _ sys | TGetF sys => match alookup sys l with Some v => [1; v] | None => [0] end
+  | TFind v | TFindAt _ v | TFindF v => find_sys v l
   end.
 Definition at_world (c : tcall) (w : nat) (r : R) : R :=
   match c with
@@ -112,8 +125,11 @@ Section Text.
   Variable contents : nat -> list (nat * nat).
   Variable bad : nat -> bool.
   Variable cache_enabled : bool.
+  (* version strings: S w for file state w, 0 for "stat failed" *)
+  Definition stat_faulted (c : tcall) : bool := match c with TGetF _ | TFindF _ => true | _ => false end.
   Definition t_stat (l : tls) (o : tobj) (w : nat) : tls * tobj :=
-    ({| tc := tc l; statv := if cache_enabled then Some w else None; tres := tres l |}, o).
+    ({| tc := tc l; statv := if cache_enabled then Some (if stat_faulted (tc l) then 0 else S w) else None;
+        tres := tres l |}, o).
   Definition opt_nat_eqb (a b : option nat) : bool :=
     match a, b with Some x, Some y => Nat.eqb x y | _, _ => false end.
   Definition t_read (l : tls) (o : tobj) (w : nat) : tls * tobj :=
